@@ -2,15 +2,29 @@
 # C10 (bridge) — from the verified circuit evaluation `evalC` to what is executed and to the evaluator on the loaded store
 
 Property theorems only. Model: `ProbLogModel.DDNNF` (`evalCArr`, `loadNnf`, `nodeWeights`, `rootWeight`, `prepare`,
-`evaluate`). Helper lemmas: `ProbLogProofs/Lemmas/DDNNFBridge*.lean`.
+`evaluate`). Helper lemmas: `ProbLogProofs/Lemmas/DDNNFBridge*.lean`. Vocabulary (all in `ProbLogProofs.DDNNF`):
+
+* `litsNormal cnf c` (decidable): the CNF weight of the variable of every `L` line is neither `None` (`.tt`) nor
+  `False` (`.ff`), so `add_atom` creates/reuses an atom node for every `L` line. REAL restriction of the theorems:
+  with such weights `_load_nnf` maps the line to the constant key 0 / `None` and creates no node. Always true for
+  the standard pipeline (`LogicFormula.add_atom` never stores these weights unless `keep_all=True`).
+* `isCompound nd`: the line is an `A`/`O` line. "the last line is compound" is a REAL restriction (see
+  `C10_rootWeight_single_literal` / `C10_rootWeight_single_negative_refuted` for the one-line circuit `L l`).
+* `atomOf S x` = `(lookup S.idxAtom (.user x)).getD x`: the atom node of the loaded store that stands for CNF
+  variable `x` (the `rename` of `_load_nnf`); `atomLit S l` = `±atomOf S |l|`: the store literal of a CNF literal.
+* `circW S w l = litW w (atomLit S l)`: the circuit-literal weights induced by an evaluator table `w` (indexed by
+  store atoms); `tableWt S w V T = ∏ x ∈ V, if x ∈ T then (w (atomOf S x)).1 else (w (atomOf S x)).2`.
+* `childW S w acc k` — the evaluator's `_get_weight(k)`: `None ↦ 0`, `0 ↦ 1`, `±atom ↦ w`'s positive / negative
+  entry, compound node `m ↦ acc[m-1]`.
 -/
 import ProbLogProofs.Properties.C10
 import ProbLogProofs.Lemmas.DDNNFBridgeArr
+import ProbLogProofs.Lemmas.DDNNFBridgeFinal
 
 open Finset
 
 namespace ProbLogProofs.C10
-open ProbLogModel.DDNNF ProbLogModel.Formula ProbLogProofs.DDNNF
+open ProbLogModel.DDNNF ProbLogModel.Formula ProbLogModel.Clark ProbLogProofs.DDNNF
 
 /-- The Array-based evaluation run by the driver is the List-based `evalC` of the C10 theorems
 (every circuit, every semiring record, no validity needed). -/
@@ -18,5 +32,224 @@ theorem C10_evalCArr_eq {R : Type} (sr : SR R) (w : Int → R) (c : Circuit) : e
   evalCArr_eq_evalC sr w c
 
 example : evalCArr natSR (fun l => if l = 1 then 2 else if l = 2 then 3 else 1) exC = 7 := by decide
+
+/-! ### the loaded store -/
+
+/-- CNF for `exC` (`x1 ↔ x2`): two weighted variables, a query on `x1` and one on `¬x2` -/
+def exCnf : CNF :=
+  { atomcount := 2, clauses := [[1, -2], [-1, 2]], weights := [(1, .prob (3/10)), (2, .prob (1/2))],
+    names := [(.query, .pos 1, some 1), (.query, .pos 2, some (-2))], ads := [] }
+
+/-- `x1 ∨ x2` as a d-DNNF with decision variable 1: `(x1 ∧ (x2 ∨ ¬x2)) ∨ (¬x1 ∧ x2)` -/
+def exOr : Circuit :=
+  [.lit 1, .lit 2, .lit (-2), .or 2 [1, 2], .and [0, 3], .lit (-1), .and [5, 1], .or 1 [4, 6]]
+
+/-- CNF `x1 ∨ x2` with a query on `x2` and evidence `x1 = true` -/
+def exCnfEv : CNF :=
+  { atomcount := 2, clauses := [[1, 2]], weights := [(1, .prob (3/10)), (2, .prob (1/2))],
+    names := [(.query, .pos 2, some 2), (.evPos, .pos 1, some 1)], ads := [] }
+
+example : validate exOr = .ok ∧ litsNormal exCnfEv exOr = true ∧
+    (∃ nd, exOr.getLast? = some nd ∧ isCompound nd = true) := by decide
+
+example : validate exC = .ok ∧ litsNormal exCnf exC = true ∧
+    (∃ nd, exC.getLast? = some nd ∧ isCompound nd = true) := by decide
+
+/-- **`L` lines ↦ shared atoms.** The key of an `L l` line is the store literal `atomLit l = ±atomOf |l|`; the
+atom node exists (index ≥ 1, an `atom`), `L x` and `L -x` share it, different variables get different atoms. -/
+theorem C10_line2node_literal (c : Circuit) (cnf : CNF) (ns : List (Label × Name × Key))
+    (hv : validate c = .ok) (hn : litsNormal cnf c = true) (j : Nat) (l : Int) (hj : c[j]? = some (NNode.lit l)) :
+    (loadNnf c cnf ns).line2node[j]? = some (some (atomLit (loadNnf c cnf ns).store l)) ∧
+    1 ≤ atomOf (loadNnf c cnf ns).store l.natAbs ∧
+    (∃ a g e n, (loadNnf c cnf ns).store.nodes[atomOf (loadNnf c cnf ns).store l.natAbs - 1]? =
+        some (.atom a g e n)) ∧
+    (∀ (j' : Nat) (l' : Int), c[j']? = some (NNode.lit l') →
+        atomOf (loadNnf c cnf ns).store l'.natAbs = atomOf (loadNnf c cnf ns).store l.natAbs →
+        l'.natAbs = l.natAbs) := by
+  have hrep := loadNnf_rep c cnf ns hn
+  have hz := (validate_valid hv).litsNonzero
+  obtain ⟨h1, h2⟩ := hrep.atomOf_lit hj
+  refine ⟨hrep.line2node_lit hz hj, h1, ?_, ?_⟩
+  · obtain ⟨_, a, g, e, h3⟩ := hrep.idx _ _ h2
+    obtain ⟨n, h4⟩ := shapes_get_atom h3
+    exact ⟨a, g, e, n, h4⟩
+  · intro j' l' hj' he
+    obtain ⟨_, h2'⟩ := hrep.atomOf_lit hj'
+    rw [he] at h2'
+    have := hrep.inj _ _ _ h2' h2
+    injection this with this
+    omega
+
+/-- **Line by line.** For a validated circuit all of whose literal lines create atoms, the evaluator's value
+(`_get_weight`, model `childW` over the bottom-up table `nodeWeights`) of the key `line2node[j]` equals the value
+`evalLines` computes for line `j`, for EVERY weight table `w` over the store atoms. -/
+theorem C10_nodeWeights_eq_evalLines (c : Circuit) (cnf : CNF) (ns : List (Label × Name × Key))
+    (hv : validate c = .ok) (hn : litsNormal cnf c = true) (w : Nat → Rat × Rat) (j : Nat) (hj : j < c.length) :
+    childW (loadNnf c cnf ns).store w (nodeWeights (loadNnf c cnf ns).store w)
+        ((loadNnf c cnf ns).line2node.getD j none) =
+      (evalLines ratSR (circW (loadNnf c cnf ns).store w) c).getD j 0 :=
+  nodeWeights_eq_evalLines (loadNnf_rep c cnf ns hn) (validate_valid hv).forward (validate_valid hv).litsNonzero w j hj
+
+/-- … in particular an `A`/`O` line `j` is a conj/disj node `m` of the store (`line2node[j] = m`) and entry `m` of
+`nodeWeights` is the circuit value of line `j`. -/
+theorem C10_nodeWeights_compound (c : Circuit) (cnf : CNF) (ns : List (Label × Name × Key))
+    (hv : validate c = .ok) (hn : litsNormal cnf c = true) (w : Nat → Rat × Rat) (j : Nat) (hj : j < c.length)
+    (hc : isCompound c[j] = true) :
+    ∃ m : Nat, 1 ≤ m ∧ (loadNnf c cnf ns).line2node[j]? = some (some (m : Int)) ∧
+      (nodeWeights (loadNnf c cnf ns).store w).getD (m - 1) 0 =
+        (evalLines ratSR (circW (loadNnf c cnf ns).store w) c).getD j 0 := by
+  have hrep := loadNnf_rep c cnf ns hn
+  have hz := (validate_valid hv).litsNonzero
+  have hmain := C10_nodeWeights_eq_evalLines c cnf ns hv hn w j hj
+  rcases hrep.key_cases hz j hj with ⟨l, i, a, g, e, n, hl, _⟩ | ⟨m, _, hm1, hk, hget, hnode⟩
+  · rw [List.getElem?_eq_getElem hj] at hl
+    rw [Option.some.inj hl] at hc
+    simp [isCompound] at hc
+  · refine ⟨m, hm1, hget, ?_⟩
+    rw [← hmain]
+    have hne : (m : Int) ≠ 0 := by omega
+    have habs : (m : Int).natAbs = m := by omega
+    show _ = childW _ w _ (lineKey _ j)
+    rw [hk]
+    rcases hnode with ⟨cs, n, _, hnd⟩ | ⟨d, cs, n, _, hnd⟩
+    · rw [childW_conj _ _ _ _ hne (by rw [habs]; exact hnd), habs]
+    · rw [childW_disj _ _ _ _ hne (by rw [habs]; exact hnd), habs]
+
+/-- **Root.** If the last line is an `A`/`O` line, the evaluator's root weight (weight of the LAST STORE NODE) is
+the circuit value `evalC` under the induced literal weights. -/
+theorem C10_rootWeight_eq_evalC (c : Circuit) (cnf : CNF) (ns : List (Label × Name × Key))
+    (hv : validate c = .ok) (hn : litsNormal cnf c = true)
+    (hroot : ∃ nd, c.getLast? = some nd ∧ isCompound nd = true) (ws : List (Nat × (Rat × Rat))) :
+    rootWeight (loadNnf c cnf ns).store ws = evalC ratSR (circW (loadNnf c cnf ns).store (wfun ws)) c := by
+  obtain ⟨nd, h1, h2⟩ := hroot
+  exact rootWeight_eq_evalC (loadNnf_rep c cnf ns hn) (validate_valid hv).forward
+    (validate_valid hv).litsNonzero ws nd h1 h2
+
+example : rootWeight (loadNnf exC exCnf exCnf.names).store [(1, (3/10, 7/10)), (2, (1/2, 1/2))] = 1/2 := by
+  decide +kernel
+
+/-- … hence it is the weighted model count of the circuit, every variable `x` weighted by the table entry of its
+atom `atomOf x`. -/
+theorem C10_rootWeight_is_wmc (c : Circuit) (cnf : CNF) (ns : List (Label × Name × Key))
+    (hv : validate c = .ok) (hn : litsNormal cnf c = true)
+    (hroot : ∃ nd, c.getLast? = some nd ∧ isCompound nd = true) (ws : List (Nat × (Rat × Rat))) :
+    rootWeight (loadNnf c cnf ns).store ws =
+      ∑ T ∈ models c, tableWt (loadNnf c cnf ns).store (wfun ws) (rootVarsF c) T := by
+  obtain ⟨nd, h1, h2⟩ := hroot
+  exact rootWeight_eq_wmc (loadNnf_rep c cnf ns hn) (validate_valid hv) ws nd h1 h2
+
+/-- **One-line circuit `L l`.** The store is the single atom node 1 and the root weight is its POSITIVE weight,
+whatever the sign of `l` … -/
+theorem C10_rootWeight_single_literal (cnf : CNF) (ns : List (Label × Name × Key)) (l : Int)
+    (hn : litNormal cnf l = true) (ws : List (Nat × (Rat × Rat))) :
+    atomOf (loadNnf [.lit l] cnf ns).store l.natAbs = 1 ∧
+      rootWeight (loadNnf [.lit l] cnf ns).store ws = (wfun ws 1).1 :=
+  rootWeight_single_lit cnf ns l hn ws
+
+/-- … so for `L l` with `l > 0` it is `evalC`, -/
+theorem C10_rootWeight_single_positive (cnf : CNF) (ns : List (Label × Name × Key)) (l : Int) (hl : l > 0)
+    (hn : litNormal cnf l = true) (ws : List (Nat × (Rat × Rat))) :
+    rootWeight (loadNnf [.lit l] cnf ns).store ws =
+      evalC ratSR (circW (loadNnf [.lit l] cnf ns).store (wfun ws)) [.lit l] := by
+  obtain ⟨h1, h2⟩ := rootWeight_single_lit cnf ns l hn ws
+  rw [h2]
+  show _ = litW (wfun ws) (atomLit _ l)
+  unfold atomLit litW
+  rw [if_pos hl, h1]
+  simp
+
+/-- … and for `L -1` it is NOT: the circuit `L -1` (the d-DNNF dsharp emits for the CNF `¬x1`) with `P(x1) = 3/10`
+has weighted model count `7/10`, the evaluator's root weight is `3/10` (the last STORE node is the atom, read
+positively). Replayed on the real `_load_nnf` / `SimpleDDNNFEvaluator`: Z = 0.3, query `¬x1` ↦ 0.0. -/
+theorem C10_rootWeight_single_negative_refuted :
+    validate [.lit (-1)] = .ok ∧ litsNormal { exCnf with names := [] } [.lit (-1)] = true ∧
+    rootWeight (loadNnf [.lit (-1)] { exCnf with names := [] } []).store [(1, (3/10, 7/10))] = 3/10 ∧
+    evalC ratSR (circW (loadNnf [.lit (-1)] { exCnf with names := [] } []).store
+      (wfun [(1, (3/10, 7/10))])) [.lit (-1)] = 7/10 := by
+  decide +kernel
+
+/-! ### the evaluator -/
+
+/-- **What a successful `prepare` returns.** `P.ws` is the table of `extractWeights` after the evidence literals
+`evidenceLits` (store literals `±atom`) were applied by `setEvidence`, `P.z` its root weight (non-zero). -/
+theorem C10_prepare_ok (S : Store) (P : Prepared) (h : prepare S = .ok P) :
+    ∃ ws0, extractWeights S.weights S.ads = .ok ws0 ∧
+      (evidenceLits S).foldlM setEvidence ws0 = .ok P.ws ∧
+      P.store = S ∧ P.z = rootWeight S P.ws ∧ isZero P.z = false ∧
+      P.hasEvidence = !(evidenceLits S).isEmpty :=
+  prepare_ok h
+
+/-- **"Evidence fixed".** After the evidence literals `evi` were applied successfully, an atom without evidence
+keeps its pair and an atom with evidence literal `e` carries `evPair e` = `(1, 0)` (`e > 0`) / `(0, 1)` (`e < 0`):
+the weight of the assignments contradicting the evidence becomes 0, the evidence atom itself contributes factor 1. -/
+theorem C10_evidence_weights (evi : List Int) (ws0 ws : List (Nat × (Rat × Rat)))
+    (h : evi.foldlM setEvidence ws0 = .ok ws) :
+    (∀ i, (∀ e ∈ evi, e.natAbs ≠ i) → wfun ws i = wfun ws0 i) ∧
+    (∀ e ∈ evi, e ≠ 0 → wfun ws e.natAbs = evPair e) :=
+  foldlM_setEvidence_spec evi ws0 ws h
+
+example : [(2 : Int), -1].foldlM setEvidence [(1, (3/10, 7/10)), (2, (1/2, 1/2))] =
+    .ok [(1, (0, 1)), (2, (1, 0))] := by decide +kernel
+
+/-- **`evaluate` is the conditional weighted model count.** Validated circuit, last line compound, every literal
+line an atom, `prepare` succeeded with table `P.ws`, `q` a literal over a variable of the circuit. Then
+`evaluate P (atomLit q)` is the weighted count of the circuit's models containing `q` — divided by the weighted
+count of all models iff there is evidence — where assignment `T` weighs `tableWt … (wfun P.ws) … T` (for the shape of
+`P.ws` see `C10_prepare_ok`, `C10_evidence_weights`). -/
+theorem C10_evaluate_is_conditional_wmc (c : Circuit) (cnf : CNF) (ns : List (Label × Name × Key)) (P : Prepared)
+    (q : Int) (hv : validate c = .ok) (hn : litsNormal cnf c = true)
+    (hroot : ∃ nd, c.getLast? = some nd ∧ isCompound nd = true)
+    (hP : prepare (loadNnf c cnf ns).store = .ok P) (hq : q ≠ 0) (hmem : q.natAbs ∈ rootVarsF c) :
+    evaluate P (some (atomLit (loadNnf c cnf ns).store q)) =
+      if P.hasEvidence then
+        (∑ T ∈ models c with litTrue (assign T) q = true,
+            tableWt (loadNnf c cnf ns).store (wfun P.ws) (rootVarsF c) T) /
+          (∑ T ∈ models c, tableWt (loadNnf c cnf ns).store (wfun P.ws) (rootVarsF c) T)
+      else
+        ∑ T ∈ models c with litTrue (assign T) q = true,
+            tableWt (loadNnf c cnf ns).store (wfun P.ws) (rootVarsF c) T := by
+  obtain ⟨nd, h1, h2⟩ := hroot
+  have hrep := loadNnf_rep c cnf ns hn
+  have hvalid := validate_valid hv
+  obtain ⟨ws0, _, _, hstore, hzeq, _, _⟩ := prepare_ok hP
+  obtain ⟨j, l, hj, hl⟩ := rootVar_has_lit hvalid.forward _ hmem
+  have hq' : c[j]? = some (NNode.lit q) ∨ c[j]? = some (NNode.lit (-q)) := by
+    have : l = q ∨ l = -q := by omega
+    rcases this with rfl | rfl
+    · exact Or.inl hj
+    · exact Or.inr hj
+  have hk0 : atomLit (loadNnf c cnf ns).store q ≠ 0 := hrep.atomLit_ne_zero hq'
+  have hr := rootWeight_setValue_eq_wmc hrep hvalid P.ws nd h1 h2 q hq hmem
+  have hz := rootWeight_eq_wmc hrep hvalid P.ws nd h1 h2
+  simp only [evaluate, hk0, if_false, hstore, hzeq]
+  rw [hr, hz]
+
+example : ∃ P, prepare (loadNnf exC exCnf exCnf.names).store = .ok P ∧ P.hasEvidence = false ∧
+    evaluate P (some 1) = 3/20 := by
+  have h : (prepare (loadNnf exC exCnf exCnf.names).store).toBool = true := by decide +kernel
+  cases hP : prepare (loadNnf exC exCnf exCnf.names).store with
+  | error e => rw [hP] at h; cases h
+  | ok P =>
+    have h2 : ((prepare (loadNnf exC exCnf exCnf.names).store).toOption.map
+        (fun P => (P.hasEvidence, evaluate P (some 1)))) = some (false, 3/20) := by decide +kernel
+    rw [hP] at h2
+    simp only [Except.toOption, Option.map_some, Option.some.injEq, Prod.mk.injEq] at h2
+    exact ⟨P, rfl, h2.1, h2.2⟩
+
+/-- with evidence `x1`: `P(x2 | x1) = 1/2`; the evidence atom's pair is `(1, 0)`, so `Z = 1` (not `P(x1)`) -/
+example : ∃ P, prepare (loadNnf exOr exCnfEv exCnfEv.names).store = .ok P ∧ P.hasEvidence = true ∧
+    P.z = 1 ∧ evaluate P (some 2) = 1/2 := by
+  have h : (prepare (loadNnf exOr exCnfEv exCnfEv.names).store).toBool = true := by decide +kernel
+  cases hP : prepare (loadNnf exOr exCnfEv exCnfEv.names).store with
+  | error e => rw [hP] at h; cases h
+  | ok P =>
+    have h2 : ((prepare (loadNnf exOr exCnfEv exCnfEv.names).store).toOption.map
+        (fun P => (P.hasEvidence, P.z, evaluate P (some 2)))) = some (true, 1, 1/2) := by decide +kernel
+    rw [hP] at h2
+    simp only [Except.toOption, Option.map_some, Option.some.injEq, Prod.mk.injEq] at h2
+    exact ⟨P, rfl, h2.1, h2.2.1, h2.2.2⟩
+
+example : atomLit (loadNnf exC exCnf exCnf.names).store 1 = 1 ∧ (1 : Int).natAbs ∈ rootVarsF exC ∧
+    atomLit (loadNnf exOr exCnfEv exCnfEv.names).store 2 = 2 ∧ (2 : Int).natAbs ∈ rootVarsF exOr := by decide
 
 end ProbLogProofs.C10
